@@ -96,25 +96,33 @@ def _strip_comments(text: str) -> str:
     return "".join(out)
 
 
+def _module_path(mod: str):
+    return os.path.join(LEAN, *mod.split(".")) + ".lean"
+
+
 def lean_files_for(prop: str):
-    """All Lean sources whose content the property's obligations depend on (by convention)."""
-    files = []
-    for sub in ("Model", "Gen", "Lemmas", "Props", "Witness"):
-        d = os.path.join(LEAN, "St4sd", sub)
-        if os.path.isdir(d):
-            for root, _dirs, names in os.walk(d):
-                for fn in sorted(names):
-                    if fn.endswith(".lean"):
-                        files.append(os.path.join(root, fn))
-    return files
+    """Lean sources in the import closure of the property's Props/Witness modules and driver
+    (only modules of this project: St4sd.* and Drivers.*)."""
+    roots = ["St4sd.Props." + prop, "St4sd.Witness." + prop, "Drivers." + prop]
+    seen, order, todo = set(), [], [r for r in roots if os.path.exists(_module_path(r))]
+    while todo:
+        m = todo.pop()
+        if m in seen:
+            continue
+        seen.add(m)
+        path = _module_path(m)
+        if not os.path.exists(path):
+            continue
+        order.append(path)
+        for imp in re.findall(r"^\s*(?:public\s+)?import\s+((?:St4sd|Drivers)\.[A-Za-z0-9_.]+)", open(path).read(), flags=re.M):
+            if imp not in seen:
+                todo.append(imp)
+    return sorted(order)
 
 
 def hygiene_hits(prop: str):
     hits = []
-    for f in lean_files_for(prop) + [os.path.join(LEAN, "Drivers", "Proto.lean"),
-                                     os.path.join(LEAN, "Drivers", prop + ".lean")]:
-        if not os.path.exists(f):
-            continue
+    for f in lean_files_for(prop):
         txt = _strip_comments(open(f).read())
         for ln, line in enumerate(txt.splitlines(), 1):
             if HYGIENE.search(line):
@@ -176,7 +184,7 @@ def build_and_audit(prop: str, tier: str):
     res["checker_cmd"] = "cd lean && " + " ".join(cmd)
     t0 = time.time()
     with build_lock():
-        genconst.regenerate()
+        genconst.regenerate(prop)
         rc, out = run(cmd, cwd=LEAN, timeout=3600)
         res["build_log"] = out[-20000:]
         res["build_s"] = round(time.time() - t0, 1)
